@@ -51,6 +51,9 @@ def gen_query(rng, tier, virtual=False):
         rng.shuffle(elim)
         case["explicit"] = elim
     case["joint"] = rng.random() < .6
+    hidden = [v for v in range(n) if v not in q and v not in ev]
+    if hidden and rng.random() < .25:
+        case["latents"] = rng.sample(hidden, rng.randint(1, min(2, len(hidden))))     # declared latent, never queried / observed
     case["virt"] = []
     if virtual:
         cand = [v for v in range(n) if v not in ev]
@@ -144,7 +147,7 @@ def run_query(case, drv):
                                              state_names={pn[v]: [gen.lab(l) for l in labels[v]]}) for v, L in case["virt"]]
     evidence = {pn[v]: gen.lab(labels[v][i]) for v, i in case["ev"]}
     tags = dict(order=str(case["order"]), joint=case["joint"], shape=case["shape"], n=len(names), nev=len(case["ev"]),
-                virt=len(case["virt"]))
+                virt=len(case["virt"]), latents=len(case.get("latents", [])))
     try:
         res = ve.query([pn[v] for v in case["q"]], evidence=evidence or None, elimination_order=order,
                        joint=case["joint"], show_progress=False, **kw)
@@ -164,6 +167,57 @@ def run_query(case, drv):
                 return fail(f"query(joint=False, order={case['order']}) for {pn[v]}: {err}", **tags)
     nontrivial = bool(case["edges"]) and (len(case["ev"]) > 0 or len(names) - len(case["q"]) > 1)
     return ok(nontrivial=nontrivial, **tags)
+
+
+# ----------------------------------------------------------------------------- every elimination order of one query
+def gen_all_orders(rng, tier):
+    """dense networks (a factor built while eliminating one variable is reused by several later eliminations), few query
+    variables, and EVERY permutation of the variables to eliminate (at most 120) plus all heuristics"""
+    n = rng.randint(4, 5 if tier == "quick" else 6)
+    case = gen.rand_bn(rng, nmin=n, nmax=n, maxcard=3, name_kind=rng.choice(["str", "word", "int"]), shape="gnp_dense", mincard=2)
+    q = rng.sample(range(n), rng.choice([1, 1, 2]))
+    rest = [v for v in range(n) if v not in q]
+    ev = rng.sample(rest, rng.choice([0, 0, 1]))
+    case["q"] = q
+    case["ev"] = [[v, rng.randrange(case["card"][v])] for v in ev]
+    case["joint"] = rng.random() < .7
+    case["virt"] = []
+    return case
+
+
+def run_all_orders(case, drv):
+    import itertools
+    from pgmpy.inference import VariableElimination
+    names, card, labels = case["nodes"], case["card"], case["labels"]
+    pn = [gen.lab(x) for x in names]
+    n = len(names)
+    m = model_posterior(case, drv)
+    if Fraction(m["pe"]) == 0:
+        return skip("P(evidence) = 0")
+    bn = gen.bn_to_pgmpy(case)
+    evv = [v for v, _ in case["ev"]]
+    elim = [v for v in range(n) if v not in case["q"] and v not in evv]
+    evidence = {pn[v]: gen.lab(labels[v][i]) for v, i in case["ev"]}
+    orders = [list(p) for p in itertools.permutations(elim)][:120] + ["greedy", "MinFill", "MinNeighbors", "MinWeight", "WeightedMinFill", None]
+    tags = dict(n=n, nelim=len(elim), joint=case["joint"], nev=len(evv))
+    ve = VariableElimination(bn)            # one engine for all orders: queries must not leave state behind
+    for o in orders:
+        order = [pn[v] for v in o] if isinstance(o, list) else o
+        try:
+            res = ve.query([pn[v] for v in case["q"]], evidence=evidence or None, elimination_order=order, joint=case["joint"],
+                           show_progress=False)
+        except Exception as e:
+            return fail(f"query(order={order}) raised {type(e).__name__}: {e}", **tags)
+        if case["joint"]:
+            err = compare_factor(res, m["post"], names, card, labels)
+        else:
+            err = None
+            for v in case["q"]:
+                mv = drv.call("f_marginalize", f=m["post"], vars=[w for w in case["q"] if w != v])
+                err = err or compare_factor(res[pn[v]], mv, names, card, labels)
+        if err:
+            return fail(f"elimination order {order}: {err}", **tags)
+    return ok(nontrivial=len(elim) >= 2, **tags)
 
 
 # ----------------------------------------------------------------------------- helpers on BayesianNetwork
@@ -227,6 +281,7 @@ def run_predprob(case, drv):
 
 STREAMS = [
     Stream("query", gen_query, run_query, quick=1500, thorough=25000),
+    Stream("all_orders", gen_all_orders, run_all_orders, quick=250, thorough=2500),
     Stream("virtual", gen_virtual, run_query, quick=500, thorough=6000),
     Stream("dup_evidence", gen_dup, run_query, quick=600, thorough=6000),
     Stream("state_probability", gen_stateprob, run_stateprob, quick=300, thorough=3000),
